@@ -17,12 +17,14 @@ EXTENDS Naturals, Sequences, FiniteSets, TLC
 Entries == {"lib", "cli_plain", "cli_json", "cli_skip", "cli_odk", "cli_json_skip"}
 Forms == {"valid", "invalid"}
 Outcomes == {"ok_silent", "ok_stderr", "ok_stderr_bytes", "reject", "reject_rc2", "reject_rc255_empty", "reject_arbitrary", "reject_bytes",
-             "killed", "killed_term", "java_absent", "corrupt_jar", "corrupt_jar_after_notice"}   \* (the jarfile line after a JVM notice line)
+             "killed", "killed_term", "java_absent", "corrupt_jar", "corrupt_jar_after_notice",   \* (the jarfile line after a JVM notice line)
+             "hang"}   \* the validator does not finish: the 100 s watchdog of run_popen_with_timeout sends SIGTERM, check_xform returns a warning
 \* "exit > 0 with arbitrary stderr": any positive exit status is a rejection, whatever the validator printed
 \* (..._bytes: the validator's stderr is not valid UTF-8 - "arbitrary stderr" includes arbitrary bytes)
 Rejects == {"reject", "reject_rc2", "reject_rc255_empty", "reject_arbitrary", "reject_bytes", "corrupt_jar", "corrupt_jar_after_notice"}
 AcceptsWithStderr == {"ok_stderr", "ok_stderr_bytes"}
 Killed == {"killed", "killed_term"}
+Hung == {"hang"}
 Validates(e) == e \notin {"cli_skip", "cli_json_skip"}
 IsCli(e) == e # "lib"
 IsJson(e) == e \in {"cli_json", "cli_json_skip"}
@@ -56,6 +58,7 @@ Classify:
   if vout \in Rejects then exc := "ODKValidateError";     \* return code > 0
   elsif vout \in AcceptsWithStderr then warn := warn \cup {"stderr"};
   elsif vout \in Killed then warn := warn \cup {"bad_return_code"};       \* negative return code
+  elsif vout \in Hung then warn := warn \cup {"timeout"};                  \* result.timeout: "XForm took to long to completely validate."
   end if;
 Finally:                               \* finally: tmp_path.unlink(missing_ok=True)
   tmpfiles := tmpfiles \ {"tmp"};
@@ -151,8 +154,10 @@ Classify == /\ pc = "Classify"
                              THEN /\ warn' = (warn \cup {"stderr"})
                              ELSE /\ IF vout \in Killed
                                         THEN /\ warn' = (warn \cup {"bad_return_code"})
-                                        ELSE /\ TRUE
-                                             /\ warn' = warn
+                                        ELSE /\ IF vout \in Hung
+                                                   THEN /\ warn' = (warn \cup {"timeout"})
+                                                   ELSE /\ TRUE
+                                                        /\ warn' = warn
                        /\ exc' = exc
             /\ pc' = "Finally"
             /\ UNCHANGED << entry, form, vout, pre, ext, tmpfiles, out, 
